@@ -69,6 +69,28 @@ def exec_hist_case(case: dict) -> dict:
         if "C01" in case["want"]:
             k += 1
             rels.append({"tid": case["tid"], "k": k, "rel": "incr_eq_scratch", "a": a, "b": b})
+        if "C04" in case["want"]:
+            # every phase of the history that only edits source files, after a successful build
+            per_run, cur = [], None
+            for ev in out["events"]:
+                if ev["ev"] == "proc_start":
+                    cur = []
+                    per_run.append(cur)
+                if cur is not None:
+                    cur.append(ev)
+            groups = group_phases(phases)
+            for i in range(1, min(len(groups), len(out["runs"]), len(per_run))):
+                edits_i = groups[i][0].get("edits", [])
+                if len(groups[i]) != 1 or not edits_i:
+                    continue
+                if not all(e[0] == "set" and not e[1].endswith(".py") for e in edits_i):
+                    continue
+                if last_rc(out["runs"][i - 1]) not in (0, 8) or groups[i][0].get("during"):
+                    continue
+                k += 1
+                rels.append({"tid": case["tid"], "k": k, "rel": "cone", "a": side(out["runs"][i - 1]), "b": side(out["runs"][i]),
+                             "info": {"edited": sorted({e[1] for e in edits_i}), "executed": executed_steps(per_run[i]),
+                                      "phase": i}})
         if "C04" in case["want"] and a["rc"] in (0, 8) and last_rc(out["runs"][-1]) in (0, 8):
             # --- no-op rebuild (restart)
             rng = random.Random(case.get("seed", 0))
@@ -90,13 +112,25 @@ def exec_hist_case(case: dict) -> dict:
             # --- edited rebuild: a subset of (non-script) sources gets new content
             cands = [p for p, v in fin["files"].items() if v is not None and not p.endswith(".py")
                      and len(project["sources"].get(p, [])) > 1]
-            if cands and post["rc"] in (0, 8):
+            twin = (fin["files"].get("plan.py") or "") + "b"
+            has_twin = twin in project["scripts"]["./plan.py"]["versions"]
+            if (cands or has_twin) and post["rc"] in (0, 8):
                 nx = rng.choice([1, 1, 2, 3])
-                X = sorted(rng.sample(cands, min(nx, len(cands))))
+                X = sorted(rng.sample(cands, min(nx, len(cands)))) if cands else []
                 edits = []
                 for p in X:
                     others = [v for v in project["sources"][p] if v != fin["files"][p]]
                     edits.append(["set", p, rng.choice(others)])
+                # steps of sub-plans that carry satellites (overrides, resources, env) are the ones
+                # whose skip after a mere re-declaration of their static inputs is at stake
+                sat = any(v["kind"] == "step" and (v["overrides"] or v["envVars"]) and v["creator"].startswith("step:./sub")
+                          for v in post["state"]["nodes"].values())
+                if has_twin and (not X or sat or rng.random() < 0.5):
+                    # the plan script is edited without changing what it declares
+                    if sat or rng.random() < 0.5:
+                        X, edits = [], []
+                    edits.append(["set", "plan.py", twin])
+                    X = sorted(set(X) | {"plan.py"})
                 ephase = {"edits": edits, "how": "restart", "cfg": cfg, "seed": rng.randrange(10**6)}
                 out4 = run_history(project, [ephase], world=world)
                 tid4 = case["tid"] + "/edit"
@@ -167,7 +201,7 @@ def main(argv=None):
     argv = list(sys.argv[1:] if argv is None else argv)
     pid = argv.pop(0)
     args = parse_args(argv)
-    n = {"quick": 80, "thorough": 1500}[args.tier]
+    n = {"quick": 110, "thorough": 1500}[args.tier]
     report = Report(pid, args.tier, args.seed)
     report.assumptions.extend([
         "the from-scratch oracle is a real build of the final sources by the same code in an empty project directory",
